@@ -265,7 +265,7 @@ def shapeop_case(rng, tier):
         n = rng.randint(1, 3)
         c['x'] = intdata(rng, (D, P, n * (n + 1) // 2))
     elif op in ('conj', 'real', 'imag', 'fft', 'ifft'):
-        s = tuple(rng.randint(1, 3) for _ in range(rng.randint(1, 2)))
+        s = tuple(rng.randint(1, 4) for _ in range(rng.randint(1, 3)))
         c['x'] = intdata(rng, (D, P) + s) + 1j * intdata(rng, (D, P) + s)
         c['axis'] = rng.choice(list(range(-len(s), len(s))))
     else:
@@ -339,6 +339,18 @@ def shapeop_fails(ctx, case):
             return 'shapeop-symvec-ndarray: algopy.symvec(ndarray, %s) differs from the NumPy reference' % ul
         if not np.array_equal(UTPM.symvec(UTPM(x.copy()), ul).data, y.data):
             return 'shapeop-symvec-method: UTPM.symvec(A, %s) differs from algopy.symvec(A, %s)' % (ul, ul)
+    # the same operation on a traced operand (every dispatcher has a Function branch): same value and shape
+    try:
+        from algopy import CGraph, Function
+        cg_ = CGraph()
+        ft = f(Function(UTPM(x.copy())))
+        cg_.trace_off()
+        traced = ft.x if isinstance(ft, Function) else ft
+    except Exception:
+        traced = None           # not every shape operation can be recorded
+    if isinstance(traced, UTPM):
+        if traced.data.shape != y.data.shape or not np.array_equal(traced.data, y.data):
+            return 'shapeop-traced-%s: the traced call (Function operand) differs from the direct call on the same data' % op
     if op in ('transpose', 'T') and not np.shares_memory(y.data, u.data):
         return 'shapeop-view-%s: the transpose does not share memory with its parent' % op
     # model comparisons for the modelled structural ops
